@@ -8,14 +8,17 @@ From CJ Require Import Base Dbl Tree LibcNum LibcPrint Grammar ParseDefs ParseCo
   PrintStrict PrintStrictRef RoundTripNum RoundTripInt.
 Local Open Scope Z_scope.
 
-(** reading the digits [dec_fixed] wrote *)
-Lemma take_digits_dec_fixed k : forall z acc n, 0 <= z ->
-  take_digits (dec_fixed k z) acc n = (acc * 10 ^ Z.of_nat k + z mod 10 ^ Z.of_nat k, (n + k)%nat, []).
+(** reading the digits [dec_fixed] wrote, up to the first byte that is not a digit *)
+Lemma take_digits_dec_fixed_app k rest : nondigit_start rest -> forall z acc n, 0 <= z ->
+  take_digits (dec_fixed k z ++ rest) acc n =
+  (acc * 10 ^ Z.of_nat k + z mod 10 ^ Z.of_nat k, (n + k)%nat, rest).
 Proof.
-  induction k as [|k IH]; intros z acc n Hz.
-  - cbn [dec_fixed take_digits]. change (10 ^ Z.of_nat 0) with 1. rewrite Z.mod_1_r.
-    rewrite Z.mul_1_r, Z.add_0_r, Nat.add_0_r. reflexivity.
-  - rewrite dec_fixed_head by exact Hz. cbn [take_digits].
+  intro Hrest. induction k as [|k IH]; intros z acc n Hz.
+  - cbn [dec_fixed app]. change (10 ^ Z.of_nat 0) with 1. rewrite Z.mod_1_r.
+    rewrite Z.mul_1_r, Z.add_0_r, Nat.add_0_r.
+    destruct rest as [|c r]; [reflexivity|]. cbn [take_digits].
+    cbn [nondigit_start] in Hrest. change (is_digit c) with (digit c). rewrite Hrest. reflexivity.
+  - rewrite dec_fixed_head by exact Hz. cbn [app take_digits].
     set (h := (z / 10 ^ Z.of_nat k) mod 10).
     assert (Hh : 0 <= h < 10) by (apply Z.mod_pos_bound; lia).
     assert (Hdig : is_digit (48 + h) = true).
@@ -29,6 +32,13 @@ Proof.
     replace ((10 * acc + (48 + h - 48)) * 10 ^ Z.of_nat k + z mod 10 ^ Z.of_nat k)
       with (acc * (10 ^ Z.of_nat k * 10) + (z mod 10 ^ Z.of_nat k + 10 ^ Z.of_nat k * h)) by ring.
     reflexivity.
+Qed.
+
+Lemma take_digits_dec_fixed k : forall z acc n, 0 <= z ->
+  take_digits (dec_fixed k z) acc n = (acc * 10 ^ Z.of_nat k + z mod 10 ^ Z.of_nat k, (n + k)%nat, []).
+Proof.
+  intros z acc n Hz. pose proof (take_digits_dec_fixed_app k [] I z acc n Hz) as H.
+  rewrite app_nil_r in H. exact H.
 Qed.
 
 Lemma take_digits_dec_nat z : 0 <= z -> z < 10 ^ 10 ->
@@ -74,10 +84,11 @@ Proof.
     destruct (length (dec_nat (- z))) as [|k] eqn:Ek; [lia|]. cbn [Nat.add Nat.eqb exp_part].
     f_equal. f_equal; [|cbn [length]; lia].
     unfold dec_to_dbl_exact. destruct (Z.eqb_spec (- z) 0); [lia|].
-    destruct (Z.ltb_spec 400 (ndigits 2000 (- z) + (0 - Z.of_nat 0))); [cbn in *; lia|].
-    destruct (Z.ltb_spec (ndigits 2000 (- z) + (0 - Z.of_nat 0)) (-400)).
-    { pose proof (ndigits_nonneg 2000 (- z)). cbn in *. lia. }
-    cbn [Z.of_nat Z.sub Z.opp Z.leb Z.compare Z.pow]. rewrite Z.mul_1_r.
+    change (0 - Z.of_nat 0) with 0. rewrite Z.add_0_r.
+    pose proof (ndigits_nonneg 2000 (- z)) as Hnn.
+    destruct (Z.ltb_spec 400 (ndigits 2000 (- z))); [lia|].
+    destruct (Z.ltb_spec (ndigits 2000 (- z)) (-400)); [lia|].
+    change (0 <=? 0) with true. cbv iota. change (10 ^ 0) with 1. rewrite Z.mul_1_r.
     destruct z as [|p|p]; try lia. cbn [Z.opp].
     assert (Hd : Zpos (digits2_pos p) <= 53) by (apply digits_le_of_lt; [lia|change (2 ^ 53) with 9007199254740992; lia]).
     change (binary_normalize prec emax (Z.pos p) 0 false) with (dbl_of_int (Zpos p)).
@@ -88,12 +99,13 @@ Proof.
     rewrite strtod_ref_eq. rewrite Ed. rewrite sign_split_other by lia. rewrite <- Ed.
     rewrite Et. cbn [frac_part].
     destruct (length (dec_nat z)) as [|k] eqn:Ek; [lia|]. cbn [Nat.add Nat.eqb exp_part].
-    f_equal. f_equal.
+    f_equal. f_equal; [|lia].
     unfold dec_to_dbl_exact. destruct (Z.eqb_spec z 0) as [->|Hnz]; [reflexivity|].
-    destruct (Z.ltb_spec 400 (ndigits 2000 z + (0 - Z.of_nat 0))); [cbn in *; lia|].
-    destruct (Z.ltb_spec (ndigits 2000 z + (0 - Z.of_nat 0)) (-400)).
-    { pose proof (ndigits_nonneg 2000 z). cbn in *. lia. }
-    cbn [Z.of_nat Z.sub Z.opp Z.leb Z.compare Z.pow]. rewrite Z.mul_1_r. reflexivity.
+    change (0 - Z.of_nat 0) with 0. rewrite Z.add_0_r.
+    pose proof (ndigits_nonneg 2000 z) as Hnn.
+    destruct (Z.ltb_spec 400 (ndigits 2000 z)); [lia|].
+    destruct (Z.ltb_spec (ndigits 2000 z) (-400)); [lia|].
+    change (0 <=? 0) with true. cbv iota. change (10 ^ 0) with 1. rewrite Z.mul_1_r. reflexivity.
 Qed.
 
 Corollary ref_lr_d z : int_range z = true -> exists k, strtod_ref (fmt_d z) = Some (dbl_of_int z, k).
